@@ -178,6 +178,9 @@ NOCORE_PRELUDE = """#![feature(no_core, lang_items, rustc_attrs, abi_vectorcall)
 #[lang = "copy"] pub trait Copy {}
 #[lang = "neg"] pub trait Neg { type Output; fn neg(self) -> Self::Output; }
 impl Neg for isize { type Output = isize; fn neg(self) -> isize { -self } }
+impl Neg for i128 { type Output = i128; fn neg(self) -> i128 { -self } }
+impl Neg for i64 { type Output = i64; fn neg(self) -> i64 { -self } }
+impl Neg for i32 { type Output = i32; fn neg(self) -> i32 { -self } }
 pub mod __core { #[repr(u8)] pub enum c_void { A, B } }
 """
 _NIGHTLY = None
